@@ -4,3 +4,5 @@ import PugProofs.Props.C01
 import PugProofs.Props.C02
 import PugProofs.Props.C06
 import PugProofs.Props.C13
+import PugProofs.Props.C04
+import PugProofs.Props.C05
